@@ -343,6 +343,9 @@ def l3_outputs(thorough):
     outs.append(("3d-lm3-3cpu", 3, 3, 3, lvl1 + lvl2, 3, [0, 520, 3000, 4096], "hilbert"))
     if thorough:
         outs.append(("3d-lm3-2cpu", 3, 3, 3, lvl1 + lvl2, 2, [0, 1500, 4096], "hilbert"))
+        # the same run load-balanced differently (cross-run block: the pre-selection really prunes on these)
+        outs.append(("3d-lm3-3cpu-b", 3, 3, 3, lvl1 + lvl2, 3, [0, 900, 2500, 4096], "hilbert"))
+        outs.append(("3d-lm3-3cpu-c", 3, 3, 3, lvl1 + lvl2, 3, [0, 1800, 3300, 4096], "hilbert"))
     # 2-D and 1-D outputs with RAMSES' hilbert2d / hilbert1d ownership
     t2 = [(1, (0, 0)), (1, (1, 1)), (2, (1, 1))]
     top2 = (2**4) ** 2
@@ -614,7 +617,8 @@ def l3_cpu_case(out, d, full, sub):
 # cross-run block: several runs (same output number and cpu count, different load balancing) visited in one process, addressed by
 # absolute path or by the default relative path after a chdir: nothing learnt from one run may be applied to another
 
-CROSS_GROUPS = [["3d-lm2-2cpu-512", "3d-lm2-2cpu-1100", "3d-lm2-2cpu-2049"], ["2d-2cpu-64", "2d-2cpu-131", "2d-2cpu-192"]]
+CROSS_GROUPS = [["3d-lm2-2cpu-512", "3d-lm2-2cpu-1100", "3d-lm2-2cpu-2049"], ["2d-2cpu-64", "2d-2cpu-131", "2d-2cpu-192"],
+                ["3d-lm3-3cpu", "3d-lm3-3cpu-b", "3d-lm3-3cpu-c"]]
 CROSS_MODES = ["absolute-paths", "relative-path-after-chdir"]
 
 
@@ -667,7 +671,73 @@ def cross_case(labels, mode, order, pred_i):
     return problems
 
 
+MOVING_LABELS = ["3d-lm3-3cpu", "2d-lm3-L4-7cpu"]
+
+
+class _Region:
+    """A selection region whose predicates stay the same callable objects while the region moves."""
+
+    def __init__(self, axes):
+        self.lim = {ax: (0.0, 0.0) for ax in axes}
+
+    def _inside(self, ax, x):
+        import osyris
+
+        cm = osyris.units("cm")
+        lo, hi = self.lim[ax]
+        return (x > lo * cm) & (x < hi * cm)
+
+    def in_x(self, x):
+        return self._inside("x", x)
+
+    def in_y(self, x):
+        return self._inside("y", x)
+
+    def in_z(self, x):
+        return self._inside("z", x)
+
+
+def moving_case(label, pred_order, carrier):
+    """One run loaded several times in this process through the SAME predicate objects, the region they describe being moved in
+    between (bound methods of one region object, or functions reading a variable of their closure): each load selects the region
+    as it is at that moment."""
+    out = build_l3(label)
+    problems = []
+    n = 2 ** out.tree.levelmax
+    box = out.boxlen * out.unit_l
+    axes = "xyz"[: out.ndim]
+    region = _Region(axes)
+    if carrier == "bound-methods":
+        sel = {"position_" + ax: getattr(region, "in_" + ax) for ax in axes}
+    else:
+        def make(ax):
+            return lambda x: region._inside(ax, x)
+
+        sel = {"position_" + ax: make(ax) for ax in axes}
+    with _load.Scratch() as d:
+        out.write(d)
+        ds, _ = _load.load(d, out.nout)
+        full = C13.snapshot(ds)["mesh"]
+        for step, pi in enumerate(pred_order):
+            pred = cross_preds(out.ndim, out.tree.levelmax)[pi]
+            for ax, (a, b) in pred["box"].items():
+                region.lim[ax] = ((a + 0.25) / n * box, (b + 0.75) / n * box)
+            exp = rows_of(full, l3_filter(full, pred, out, None))
+            ds, text = _load.load(d, out.nout, select={"mesh": dict(sel)})
+            got = rows_of(C13.snapshot(ds).get("mesh", {}))
+            if (len(exp) or len(got)) and (got.shape != exp.shape or not np.array_equal(got, exp)):
+                problems.append((f"selected-load-differs-after-the-region-was-moved:{carrier}",
+                                 {"step": step, "expected_rows": int(len(exp)), "got_rows": int(len(got)), "files_opened": _load.processed_files(text)}))
+                break
+    return problems
+
+
 def cross_items(thorough):
+    # (outputs whose pre-selection opens 1, 2 and 3 of 3 files for the three corner regions)
+    for gi, label in enumerate(MOVING_LABELS):
+        for carrier in ("bound-methods", "closure"):
+            for order in ([0, 1], [1, 0], [0, 2], [2, 0, 1], [1, 1, 2], [2, 1, 0]):
+                yield {"layer": "cross", "group": gi, "mode": "one-run-region-moved", "carrier": carrier, "order": order, "label": label}
     for gi, labels in enumerate(CROSS_GROUPS):
         for mode in CROSS_MODES:
             for order in ([0, 1], [1, 0], [0, 1, 2], [2, 0, 1], [1, 1, 0]):
@@ -680,7 +750,10 @@ def cross_items(thorough):
 def cross_work(payload):
     acc = Acc()
     for idx, c in my_share(cross_items(payload["tier"] == "thorough"), payload):
-        problems = cross_case(CROSS_GROUPS[c["group"]], c["mode"], c["order"], c["pred"])
+        if c["mode"] == "one-run-region-moved":
+            problems = moving_case(c["label"], c["order"], c["carrier"])
+        else:
+            problems = cross_case(CROSS_GROUPS[c["group"]], c["mode"], c["order"], c["pred"])
         acc.case(nontrivial=True, outcome="ok" if not problems else "violation")
         for sig, det in problems:
             acc.violation("C04:" + sig, (3000, idx), c, det)
@@ -743,6 +816,8 @@ def run(ctx):
 
 
 def replay_sigs(case):
+    if case.get("layer") == "cross" and case.get("mode") == "one-run-region-moved":
+        return ["C04:" + s for s, _ in moving_case(case["label"], case["order"], case["carrier"])]
     if case.get("layer") == "cross":
         return ["C04:" + s for s, _ in cross_case(CROSS_GROUPS[case["group"]], case["mode"], case["order"], case["pred"])]
     if case.get("layer") == 1:
